@@ -530,8 +530,9 @@ where
             return Err(MqttError::TopicNameInvalid);
         }
 
-        // Validate topic name (no wildcards allowed in PUBLISH)
-        if topic.contains('#') || topic.contains('+') {
+        // Validate topic name (no wildcards allowed in PUBLISH; without a Topic Alias the
+        // topic name must not be empty)
+        if topic.is_empty() || topic.contains('#') || topic.contains('+') {
             return Err(MqttError::MalformedPacket);
         }
 
